@@ -5,6 +5,8 @@ CONSTANTS
     MaxAllocs = 3
     MaxWrites = 4
     Schemas = {"strings", "mixed"}
+    ColClasses = {}
+    MaxCols = 0
     RowClasses = {"many"}
     MdClasses = {"some"}
     PtrClasses = {"exact", "wrap_sum"}
